@@ -471,6 +471,14 @@ class Lab:
             REC.install()
             REC.register_tree(self.obj)
 
+    _tables = {}
+
+    @classmethod
+    def table(cls, kind):
+        if kind not in cls._tables:
+            cls._tables[kind] = methods(kind)
+        return cls._tables[kind]
+
     def call(self, m):
         """-> dict(out='ok'|'exc', h=digest, etype, emsg, args_same, eig, reads, writes, rbw)"""
         np = _np()
@@ -584,12 +592,22 @@ def worker_lifecycle(job, f):
     for m, path in sorted(job["refs"].items()):
         if m in refs:
             continue
-        _emit(f, dict(t="refcall", m=m))
-        lab = Lab(kind, record=False)
+        # reference = the call on a freshly defined object; where that cannot succeed today, the call after the
+        # shortest sequence the specification says makes it succeed; last resort: after calc_k0 (the suite's order)
+        cands = [list(path)] if path else []
+        for alt in ([m], ["calc_k0", m]):
+            if alt not in cands and all(q in Lab.table(kind) for q in alt):
+                cands.append(alt)
         r = None
-        for q in path:
-            r = lab.call(q)
-        refs[m] = dict(out=r["out"], h=r["h"], eig=r["eig"], etype=r["etype"], emsg=r["emsg"], eigs=[])
+        for cand in cands:
+            _emit(f, dict(t="refcall", m=m, path=cand))
+            lab = Lab(kind, record=False)
+            for q in cand:
+                r = lab.call(q)
+            if r["out"] == "ok":
+                path = cand
+                break
+        refs[m] = dict(out=r["out"], h=r["h"], eig=r["eig"], etype=r["etype"], emsg=r["emsg"], eigs=[], path=path)
         if m in ARPACK and r["out"] == "ok":
             # solver precision is what the solver shows for identical definition and history: NREF runs
             refs[m]["eigs"].append(r["eig"])
@@ -942,8 +960,7 @@ def ref_paths(g):
             if e is not None and e[1] == "ok":
                 if best is None or (len(path), path) < (len(best), best):
                     best = path
-        if best is not None:
-            refs[m] = best + [m]
+        refs[m] = (best + [m]) if best is not None else []
     return refs
 
 
@@ -1143,7 +1160,8 @@ def _run(rep, rng, tier, seed, build, mutant, kinds, maxlen, scratch):
         rep.machinery("kinds reported by TLC %s differ from the requested %s" % (sorted(graphs), sorted(kinds)))
         return rep.finish()
     # the literal property (no deviation) on the same model: its counterexample is the first finding
-    lit = run_tlc("c20-lit", "MC_Lifecycle", tlc_cfg(kinds, 1, devs=[]), workers=1, timeout=600, fast=False)
+    lit = run_tlc("c20-lit", "MC_Lifecycle", tlc_cfg(kinds, 1, devs=[], invariants=False) + "INVARIANT NoFailure\n",
+                  workers=1, timeout=600, fast=False)
     rep.add_tlc("MC_Lifecycle(MaxLen=1, no deviation)", lit)
     literal_false = "Invariant NoFailure is violated" in lit.out
     rep.cov["literal_NoFailure_holds_on_model_of_todays_code"] = not literal_false
@@ -1177,7 +1195,7 @@ def _run(rep, rng, tier, seed, build, mutant, kinds, maxlen, scratch):
     plan, stats = {}, []
     for kind in kinds:
         g = graphs[kind]
-        budget = 100000 if quick else 1200
+        budget = (len(g.edges) + 60) if quick else 1200      # the edge cover is never cut; trajectories are sampled
         paths, st = choose_paths(g, maxlen, budget, rng)
         variants = 0 if quick else 4
         extra = []
@@ -1192,7 +1210,7 @@ def _run(rep, rng, tier, seed, build, mutant, kinds, maxlen, scratch):
             if m in g.methods and want != have:
                 rep.machinery("Touches(%s,%s) in Lifecycle.tla is %s but the harness passes %s"
                               % (kind, m, sorted(want), sorted(have)))
-        walks = random_walks(g, maxlen, 20 if quick else 300, rng)
+        walks = random_walks(g, maxlen, 10 if quick else 300, rng)
         seen = set(map(tuple, paths))
         for p in extra + walks:
             if tuple(p) not in seen:
@@ -1249,11 +1267,15 @@ def _run(rep, rng, tier, seed, build, mutant, kinds, maxlen, scratch):
     rep.cov["model_drift"] = {k: v[:3] for k, v in drift_kinds.items()}
     for kind in sorted(drift_kinds):
         print("NOTE model-drift kind=%s: recorded attribute accesses are not covered by Lifecycle.tla (%s); "
-              "falling back to exhaustive concrete call sequences of length <= 3"
+              "falling back to concrete call sequences of length <= 3 (exhaustive; quick tier: triples sampled)"
               % (kind, json.dumps(drift_kinds[kind][0])[:300]))
         g = graphs[kind]
         seqs = [[a] for a in g.methods] + [[a, b] for a in g.methods for b in g.methods]
-        seqs += [[a, b, c] for a in g.methods for b in g.methods for c in g.methods]
+        triples = [[a, b, c] for a in g.methods for b in g.methods for c in g.methods]
+        if quick and len(triples) > 400:            # quick tier: all sequences up to 2, a seeded sample of the triples
+            rng.shuffle(triples)
+            triples = triples[:400]
+        seqs += triples
         res, crefs, pr = replay_kind(kind, g, seqs, build, scratch, nproc_total, mutant=mutant, record=False)
         for p in pr:
             rep.machinery(p)
@@ -1266,16 +1288,17 @@ def _run(rep, rng, tier, seed, build, mutant, kinds, maxlen, scratch):
         report_verdicts(rep, cverdicts, cevents, cinfo, {})
         rep.cov["traces_validated_against_impl"] += len(cevents)
         rep.cov["evaluations"] += sum(len(e["steps"]) for e in cevents)
-        rep.assumptions.append("kind %s: Lifecycle.tla does not cover the recorded attribute accesses; decided on "
-                               "%d exhaustive concrete call sequences (length <= 3) instead" % (kind, len(cevents)))
+        rep.assumptions.append("kind %s: Lifecycle.tla does not cover the recorded attribute accesses (model drift); "
+                               "decided on %d concrete call sequences of length <= 3 instead (%s)"
+                               % (kind, len(cevents), "all singles and pairs, 400 sampled triples" if quick and len(triples) == 400 else "exhaustive"))
 
     # 5. thread counts
     thread_checks(rep, tier, seed, build, scratch, mutant, kinds)
 
     rep.cov["rule"] = ("one replay per (abstract state, method) pair explored by TLC (edge cover of the dumped graph), "
-                       "per distinct trajectory of abstract states (all of them, %s labellings each) and seeded "
+                       "per distinct trajectory of abstract states (%s; counts under coverage.graph) and seeded "
                        "random call sequences; every call is made twice; distinct = distinct (kind, call sequence)"
-                       % ("1" if quick else "5"))
+                       % ("up to 60 per kind, 1 labelling" if quick else "up to 1200 per kind, 5 labellings"))
     rep.cov["exhaustive"] = False
     rep.assumptions += [
         "evaluation calls only; redefinitions between calls are outside the property",
